@@ -108,3 +108,19 @@ package verifspec
 //@   hint return: use imulLimbs(a < 0 ? a + 4294967296 : a, b < 0 ? b + 4294967296 : b, ah, al, bh, bl)
 //@   ensures result >= -2147483648 && result <= 2147483647
 //@   ensures (result - prod(a < 0 ? a + 4294967296 : a, b < 0 ? b + 4294967296 : b)) % 4294967296 == 0
+
+// Float -> 64-bit integer conversion passes the float as `low`: for every finite non-integral low the constructor stores
+// trunc(low) (Go's conversion truncates toward zero), modulo 2^64.
+//@ js types.js $newType:$kindInt64 float
+//@ property C06
+//@   param high: num, low: real
+//@   requires high >= -4503599627370496 && high <= 4503599627370496
+//@   ensures this.$high >= -2147483648 && this.$high <= 2147483647 && this.$low >= 0 && this.$low <= 4294967295
+//@   ensures (this.$high*4294967296 + this.$low - (high*4294967296 + trunc(low))) % 18446744073709551616 == 0
+
+//@ js types.js $newType:$kindUint64 float
+//@ property C06
+//@   param high: num, low: real
+//@   requires high >= -4503599627370496 && high <= 4503599627370496
+//@   ensures this.$high >= 0 && this.$high <= 4294967295 && this.$low >= 0 && this.$low <= 4294967295
+//@   ensures (this.$high*4294967296 + this.$low - (high*4294967296 + trunc(low))) % 18446744073709551616 == 0
